@@ -1497,6 +1497,15 @@ def run_C17(ctx):
         for pdoc in params:
             merged.update(pdoc)
         merged.update(data)
+        if i % 2 == 0:
+            # rules that ENUMERATE the top-level map (keys, values), one key from each source
+            ks_ = [rng.choice(list(data.keys()))] + [rng.choice(list(pd.keys())) for pd in params if pd]
+            extra = ["rule zroot_vals {\nthis.* exists\nsome this.* == %s\n}" % g.lit_of(doc[ks_[-1]])]
+            for kk in ks_:
+                if "/" not in kk and "'" not in kk:
+                    extra.append("rule zroot_key_%d {\nthis[ keys == '%s' ] !empty\n}" % (len(extra), kk))
+            extra.append("rule zroot_allkeys {\nthis[ keys == /./ ] !empty\nsome this[ keys == /^%s$/ ] exists\n}" % ks_[0].replace("-", "."))
+            rules += "\n".join(extra) + "\n"
         structured = rng.random() < 0.5
         flags = ["--structured", "-o", "json", "-S", "none"] if structured else ["-S", "all"]
         files = {"r.guard": rules, "d.json": json.dumps(data), "m.json": json.dumps(merged)}
@@ -1515,8 +1524,22 @@ def run_C17(ctx):
                     ia += ["-i", "{DIR}/p%d.json" % j]
                 perm_idx.append(len(jobs))
                 jobs.append({"argv": ["validate", "-r", "{DIR}/r.guard", "-d", "{DIR}/d.json"] + ia + flags, "files": files})
+        two = None
+        if params and not overlap and i % 3 == 0:
+            # several data files in one run: every one of them is merged with the parameters
+            dk = rng.choice(list(data.keys()))
+            data2 = dict(data)
+            data2[dk] = g.value(1)
+            merged2 = dict(merged)
+            merged2[dk] = data2[dk]
+            files["d2.json"] = json.dumps(data2)
+            files["m2.json"] = json.dumps(merged2)
+            sf = ["--structured", "-o", "json", "-S", "none"]
+            two = (len(jobs), len(jobs) + 1)
+            jobs.append({"argv": ["validate", "-r", "{DIR}/r.guard", "-d", "{DIR}/d.json", "-d", "{DIR}/d2.json"] + iargs + sf, "files": files})
+            jobs.append({"argv": ["validate", "-r", "{DIR}/r.guard", "-d", "{DIR}/m.json", "-d", "{DIR}/m2.json"] + sf, "files": files})
         meta.append({"base": base, "perms": perm_idx, "overlap": bool(overlap), "structured": structured, "rules": rules,
-                     "params": params, "data": data, "merged": merged})
+                     "params": params, "data": data, "merged": merged, "two": two})
     outs = vlib.run_cli_many(jobs)
     # model: merge + evaluate
     creqs = [{"id": i, "op": "case", "rules": m["rules"], "data": json.dumps(m["data"]), "loader": "libyaml", "verbose": False} for i, m in enumerate(meta)]
@@ -1576,6 +1599,17 @@ def run_C17(ctx):
         res.nontrivial.add(i)
         if a != b:
             res.judge_failures.append(dict(info, what="validating D with parameter files differs from validating the pre-merged document: %s vs %s" % (a[:3], b[:3]), **{"class": "c17-merge"}))
+        if m.get("two"):
+            oa, ob = outs[m["two"][0]], outs[m["two"][1]]
+            res.stats["c17:two-data-files:%s" % oa["code"]] += 1
+            try:
+                va = [(x[1], x[2]) for x in statuses_from_structured(oa["stdout"])] if oa["code"] in (0, 19) else ("exit", oa["code"])
+                vb = [(x[1], x[2]) for x in statuses_from_structured(ob["stdout"])] if ob["code"] in (0, 19) else ("exit", ob["code"])
+            except Exception as e:
+                va, vb = ("unreadable", str(e)), None
+            if va != vb:
+                res.judge_failures.append(dict(info, what="two data files with parameter files differ from the two pre-merged documents: %s vs %s" % (va, vb),
+                                               argv=jobs[m["two"][0]]["argv"], **{"class": "c17-merge-several-data"}))
         for k in m["perms"]:
             c = verdict(outs[k], m["structured"])
             if c != a:
